@@ -1,4 +1,5 @@
 import Cello.Registry
+import Cello.RegistryApi
 import CelloGen.Reg
 import Driver.Common
 import Std.Data.HashMap
@@ -24,8 +25,22 @@ def addrStr (p : Nat) : String :=
   if p == uintptrMax then "max" else if p == 0 then "0"
   else if p ≥ addr0 && (p - addr0) % 8 == 0 then s!"u{(p - addr0) / 8}" else s!"?{p}"
 
+/-- the routing tables of src/Alloc.c (regenerated on every run): the registry model is entered only through them -/
+def routes : Routes := gcRoutes
+
+/-- op-file name of an allocation -> (entry point of src/Alloc.c, the type has its own Alloc instance) -/
+def allocEntryOf (op : String) : Option (String × Bool) :=
+  if op == "new" || op == "tnew" || op == "tnewx" then some ("alloc", true)
+  else if op == "newroot" then some ("alloc_root", true)
+  else if op == "newraw" then some ("alloc_raw", true)
+  else if op == "pnew" then some ("new_with", false)
+  else if op == "pnewroot" then some ("new_root_with", false)
+  else if op == "pnewraw" then some ("new_raw_with", false)
+  else none
+
 structure St where
-  reg : Reg := Reg.init
+  reg : Reg := (regInitFrom CelloGen.Reg.gcNewInit).getD Reg.init     -- GC_New, from the statements of the source
+  plain : Array Bool := #[]                -- id -> last allocated as a Plain (type without an Alloc instance)
   idU : Array (Option Nat) := #[]          -- id -> u
   uId : Std.HashMap Nat Nat := {}          -- u -> id
   bucket : Std.HashMap Nat Nat := {}       -- u / 4 -> u (an object takes 4 address units: one object per bucket)
@@ -168,11 +183,12 @@ def registerId (s : St) (id u : Nat) : Option St :=
       let k := id + 1
       some { s with idU := (growTo s.idU k none).setIfInBounds id (some u), uId := s.uId.insert u id, bucket := s.bucket.insert (u / 4) u,
                     st := growTo s.st k 0, rootOf := growTo s.rootOf k false, kills := growTo s.kills k [],
-                    killNull := growTo s.killNull k false, raises := growTo s.raises k false }
+                    killNull := growTo s.killNull k false, raises := growTo s.raises k false, plain := growTo s.plain k false }
 
 def main (args : List String) : IO Unit := do
   let lines ← Driver.inputLines args
   let mut s : St := {}
+  if (regInitFrom CelloGen.Reg.gcNewInit).isNone then IO.println "R bad init: GC_New sets a field to a value the model cannot read"
   let mut nops := 0
   let mut halted := false
   for l in lines do
@@ -190,20 +206,22 @@ def main (args : List String) : IO Unit := do
       IO.println s!"O dumpevery {a[0]!}"
     | some "ideal", 2 => IO.println s!"O ideal {idealLine a[0]! a[1]!}"
     | some op, _ =>
-      if (op == "new" || op == "newroot" || op == "newraw" || op == "tnew") && a.size == 2 then
+      if (op == "new" || op == "newroot" || op == "newraw" || op == "tnew" || op == "pnew" || op == "pnewroot" || op == "pnewraw") && a.size == 2 then
         let id := a[0]!; let u := a[1]!
         match registerId s id u with
         | none => IO.println "O bad-op"
         | some s1 =>
           let stt := s1.st.getD id 0
           if stt == 1 || stt == 2 then IO.println "O bad-op" else    -- still allocated
-          s := s1
+          s := { s1 with plain := s1.plain.setIfInBounds id (op.startsWith "p") }
           let p := addrOfU u
-          if op == "newraw" then
+          -- what this entry point tells the collector, by the tables read from alloc_by and its wrappers
+          match (allocEntryOf op).bind (fun e => allocTells routes e.1 e.2) with
+          | none => IO.println s!"O {op} unmodelled"; halted := true
+          | some none =>
             s := { s with st := s.st.setIfInBounds id 2, rootOf := s.rootOf.setIfInBounds id false }
             s ← finish s op "ok" []
-          else
-            let root := op == "newroot"
+          | some (some root) =>
             -- the harness keeps the threshold out of reach for exact ops (white-box: mitems >= nitems + 1)
             let r0 := if s.reg.running && s.reg.mitems < s.reg.nitems + 1 then { s.reg with mitems := s.reg.nitems + 1 } else s.reg
             match gcSetR cfg s.K s.R r0 p root [] with
@@ -225,7 +243,8 @@ def main (args : List String) : IO Unit := do
         | some s1 =>
           let stt := s1.st.getD id 0
           if stt == 1 || stt == 2 then IO.println "O bad-op" else
-          s := s1
+          if allocTells routes "alloc" true != some (some false) then IO.println s!"O {op} unmodelled"; halted := true else
+          s := { s1 with plain := s1.plain.setIfInBounds id false }
           let p := addrOfU u
           -- the harness puts the threshold within reach: mitems = nitems, so nitems + 1 > mitems
           let r0 := if s.reg.running then { s.reg with mitems := s.reg.nitems } else s.reg
@@ -242,6 +261,8 @@ def main (args : List String) : IO Unit := do
         match s.addrOfId a[0]! with
         | none => IO.println "O bad-op"
         | some p =>
+          -- del / del_root: `rem(current(GC), self)` and nothing else, by the tables read from del_by
+          if delTells routes (if op == "del" then "del" else "del_root") != some true then IO.println s!"O {op} unmodelled"; halted := true else
           match gcRemR cfg s.K s.R s.reg p with
           | none => abortLine op; halted := true
           | some (r1, t, ex) =>
@@ -249,6 +270,7 @@ def main (args : List String) : IO Unit := do
               s := { s with st := s.st.setIfInBounds a[0]! 3, tainted := true }     -- deleted, says the property text
             s := { s with reg := r1 }; s ← finish s op "ok" t ex
       else if op == "delnull" && a.size == 0 then
+        if delTells routes "del" != some true then IO.println s!"O {op} unmodelled"; halted := true else
         match gcRemR cfg s.K s.R s.reg 0 with
         | none => abortLine op; halted := true
         | some (r1, t, ex) => s := { s with reg := r1 }; s ← finish s op "ok" t ex
@@ -266,6 +288,7 @@ def main (args : List String) : IO Unit := do
         let id := a[0]!
         let stt := s.st.getD id 0
         if stt != (if op == "delrawm" then 1 else 2) then IO.println "O bad-op" else
+        if delTells routes "del_raw" != some false then IO.println s!"O {op} unmodelled"; halted := true else
         -- del_raw: destruct + dealloc without the collector; the destructor's deletions go through GC_Rem.  For a registered
         -- object (witness files only) the entry stays: KF-C17-dealloc-stale
         if stt == 1 then s := { s with tainted := true, st := s.st.setIfInBounds id 3 }
@@ -309,6 +332,20 @@ def main (args : List String) : IO Unit := do
           match gcSweepR cfg s.K s.R r1 with
           | none => abortLine op; halted := true
           | some (r2, t, ex) => s := { s with reg := r2, stale := false }; s ← finish s op "ok" t ex
+      else if op == "show" && a.size == 0 then
+        -- GC_Show: one row per slot and the closing line
+        let tyName := fun (p : Nat) => match s.uId[(p - addr0) / 8]? with
+          | some id => if s.plain.getD id false then "Plain" else "Probe"
+          | none => "?"
+        let ls := showLines tyName addrStr s.reg
+        IO.println s!"O show ok rows={ls.length} {joinOrDigest ls}"
+      else if op == "teardown" && a.size == 0 then
+        -- GC_Del observed right after its GC_Sweep (a forked child in the harness: the state itself is not changed)
+        match gcSweepR cfg s.K s.R (if cfg.delUnmarks then unmark s.reg else s.reg) with
+        | none => abortLine op; halted := true
+        | some (r2, t, ex) =>
+          if ex then IO.println "O teardown raised" else
+          let _ ← finish { s with reg := r2, stale := false } op "ok" t
       else if op == "stop" && a.size == 0 then
         s := { s with reg := gcStop s.reg }; s ← finish s op "ok" []
       else if op == "start" && a.size == 0 then
